@@ -64,6 +64,10 @@ func typedSysFor(c string, j Job) Sys {
 		return typedSys(c, j, specSK)
 	case "time":
 		return timeSys(c, j)
+	case "pstr":
+		return psSys(c, j)
+	case "fzero":
+		return fzeroSys(c, j)
 	}
 	return nil
 }
@@ -235,4 +239,89 @@ func timeSys(c string, j Job) Sys {
 		return sys
 	}
 	panic("timeSys: no time.Time job for " + c)
+}
+
+// PS: POINTER elements / keys whose type has a String() method with a value receiver — calling it on a
+// nil *PS panics (runtime.panicwrap).  Package fmt protects its callers from that ("<nil>"); code that
+// calls String() itself does not.  The universe holds a typed nil.  (after seeded change C17-13)
+type PS struct{ N int }
+
+func (p PS) String() string { return "ps" + strconv.Itoa(p.N) }
+
+var psVals = []*PS{nil, {1}, {2}, {3}}
+var psAbsent, psPoison = &PS{9}, &PS{-99}
+
+func psCmp(a, b *PS) int {
+	switch {
+	case a == nil && b == nil:
+		return 0
+	case a == nil:
+		return -1
+	case b == nil:
+		return 1
+	}
+	return cmp.Compare(a.N, b.N)
+}
+
+func psSys(c string, j Job) Sys {
+	n, u := j.p("n", 4), j.p("u", 3)
+	if u > len(psVals) {
+		u = len(psVals)
+	}
+	U := psVals[:u]
+	label := "/*PS"
+	rev := func(a, b *PS) int { return psCmp(b, a) }
+	switch c {
+	case "arraylist", "singlylinkedlist", "doublylinkedlist":
+		return &ListSys[*PS]{Kind: c, U: U, Absent: psAbsent, Poison: psPoison, N: n, Label: label,
+			Cmps: map[string]func(a, b *PS) int{"nat": psCmp, "rev": rev, "coarse": psCmp}}
+	case "hashset", "linkedhashset", "treeset":
+		return &SetSys[*PS]{Kind: c, CmpN: "nat", U: U, Absent: psAbsent, Poison: psPoison, Cmp: psCmp, Tuples: defaultSetTuples(u), Label: label, NoJSON: true}
+	case "arraystack", "linkedliststack", "arrayqueue", "linkedlistqueue", "circularbuffer":
+		return &SeqSys[*PS]{Kind: c, Cap: j.p("cap", 3), N: n, Poison: psPoison, U: U, Label: label}
+	case "binaryheap", "priorityqueue":
+		s := genHeapSys(c, "min", n, U, psPoison, psCmp, len(U), func(p, pos int) int { return p - 1 }, 0)
+		s.Label = label
+		return s
+	case "hashmap", "linkedhashmap", "treemap", "rbt", "avl", "btree":
+		return &KVSys[*PS, Val]{Kind: c, Order: j.p("m", 3), CmpN: "nat", N: j.p("n", u), KU: U, Fresh: func(i int) Val { return Val(i) },
+			KCmp: psCmp, VCmp: func(a, b Val) int { return int(a - b) }, PropsL: kvProps, Label: label,
+			Probes: func(live []*PS) []*PS { return []*PS{psAbsent} }}
+	}
+	panic("psSys: unknown container " + c)
+}
+
+// fzeroSys: a comparator that is FINER than == : the IEEE total order on float64 puts -0 before +0,
+// while -0 == +0.  A valid strict weak order; the tree containers may consult nothing but the comparator.
+// (after seeded change C01-14, a look-up shortcut through ==)
+func fzeroSys(c string, j Job) Sys {
+	negZero := math.Copysign(0, -1)
+	U := []float64{negZero, 0, 1.5, -1.5}
+	total := func(a, b float64) int {
+		if a == b && a == 0 {
+			sa, sb := math.Signbit(a), math.Signbit(b)
+			switch {
+			case sa && !sb:
+				return -1
+			case !sa && sb:
+				return 1
+			}
+			return 0
+		}
+		return cmp.Compare(a, b)
+	}
+	probes := []float64{-7, 0.5, 9}
+	label := "/float64/total-order(-0<+0)"
+	order := j.p("m", 3)
+	if c == "treebidimap" {
+		return &KVSys[float64, float64]{Kind: c, CmpN: "nat", VCmpN: "nat", N: len(U), KU: U, VU: U[:3], KCmp: total, VCmp: total,
+			PropsL: kvProps, Label: label, Probes: func(live []float64) []float64 { return probes }}
+	}
+	sys := &KVSys[float64, Val]{Kind: c, Order: order, CmpN: "nat", N: len(U), KU: U, Fresh: func(i int) Val { return Val(i) },
+		KCmp: total, VCmp: func(a, b Val) int { return int(a - b) }, PropsL: kvProps, Label: label,
+		Probes: func(live []float64) []float64 { return probes }}
+	if c == "treeset" {
+		sys.Fresh = func(i int) Val { return 0 }
+	}
+	return sys
 }
